@@ -264,18 +264,23 @@ theorem word8_high_byte_signed (amp : Nat) (h : amp ≤ downmixShift) (x : Int) 
 
 /-! ### buffers -/
 
-theorem prepareTicksize_le (t : Int) : prepareTicksize t ≤ maxFramesize / 2 := by
+/-- the cap on the tick size leaves room for 4 bytes per frame (16-bit stereo) inside
+`XMP_MAX_FRAMESIZE` bytes; both constants are regenerated from the C -/
+theorem cap_fits : 0 < ticksizeCap ∧ ticksizeCap * 4 ≤ maxFramesize := by decide
+
+theorem prepareTicksize_le (t : Int) : prepareTicksize t ≤ ticksizeCap := by
   unfold prepareTicksize
   split
   · exact Nat.le_refl _
   · rename_i h
     omega
 
-theorem frameSamples_eq (f : Fmt) (ts : Nat) (h : ts ≤ maxFramesize / 2) :
+theorem frameSamples_eq (f : Fmt) (ts : Nat) (h : ts ≤ ticksizeCap) :
     frameSamples f ts = if f.mono then ts else ts * 2 := by
   unfold frameSamples
-  have hm : maxFramesize = 24585 := rfl
-  rw [hm] at h ⊢
+  have hc := cap_fits.2
+  generalize maxFramesize = M at *
+  generalize ticksizeCap = C at *
   cases f.mono <;> simp only [Bool.false_eq_true, if_false, if_true] <;> split <;> omega
 
 theorem frameSamples_le (f : Fmt) (ts : Nat) : frameSamples f ts ≤ maxFramesize := by
@@ -339,6 +344,12 @@ theorem offsets_match_code :
 
 /-- the amplification values the API lets through keep both shifts non-negative
 (`x >> negative` would be undefined behaviour) -/
+/-- the guard of `libxmp_mixer_prepare` assigns the bound it tests (vacuous if not recognised) -/
+theorem cap_assigned_is_guard :
+    (∀ v, ticksizeCapGuard = some v → (ticksizeCap : Int) = v) ∧
+    (∀ v, ticksizeCapAssigned = some v → (ticksizeCap : Int) = v) := by
+  decide
+
 theorem amp_range_safe : ∀ v, ampMax = some v → v ≤ (downmixShift : Int) := by
   decide
 
